@@ -246,7 +246,7 @@ class SnapLogger:
         return lambda *a, **k: None
 
 
-def td7_checkpoint_mode(chk, rng, q):
+def td7_checkpoint_mode(chk, rng, q, prefix="C06", check_release=False):
     """TD7 with deferred training: target cadence counted in training epochs, checkpoint copies only when decided"""
     for _ in range(2 if q else 20):
         script = [(int(rng.choice([1, 2, 3])), str(rng.choice(["term", "trunc"]))) for _ in range(3)]
@@ -283,26 +283,41 @@ def td7_checkpoint_mode(chk, rng, q):
                 for target, source, when, kind in TARGETS["td7"]:
                     if not due:
                         if not tr.same(a[target], b[target]):
-                            chk.fail("C06:train_td7:cadence", f"{target} changed in a training epoch that is not a multiple of target_delay", {"case": case, "epoch": epoch})
+                            chk.fail(f"{prefix}:train_td7:cadence", f"{target} changed in a training epoch that is not a multiple of target_delay", {"case": case, "epoch": epoch})
                     elif not follows("hard", None, (a if when == "pre" else b)[source], a[target], b[target]):
-                        chk.fail("C06:train_td7:law", f"{target} is not the documented hard copy after epoch {epoch}", {"case": case, "epoch": epoch})
+                        chk.fail(f"{prefix}:train_td7:law", f"{target} is not the documented hard copy after epoch {epoch}", {"case": case, "epoch": epoch})
                     else:
                         chk.count("update_points_checked")
             else:
                 for target in ("actor_target", "critic_target", "fixed_embedding", "fixed_embedding_target"):
                     if not tr.same(a[target], b[target]):
-                        chk.fail("C06:train_td7:cadence", f"{target} changed outside a training epoch", {"case": case, "iteration": it})
+                        chk.fail(f"{prefix}:train_td7:cadence", f"{target} changed outside a training epoch", {"case": case, "iteration": it})
+        if check_release:      # the training epochs executed in an iteration are exactly those released by the assessment of that iteration
+            released = {i: n for i, _, n in res["checkpoint_decisions"]}
+            per_it, it2 = {}, -1
+            for k_, _ in seq:
+                if k_ == "step":
+                    it2 += 1
+                else:
+                    per_it[it2] = per_it.get(it2, 0) + 1
+            for i in sorted(set(per_it) | set(released)):
+                if per_it.get(i, 0) != released.get(i, 0):
+                    chk.fail(f"{prefix}:train_td7:released-epochs", "the training epochs executed after an episode differ from the number released by the assessment",
+                             {"case": case, "iteration": i, "executed": per_it.get(i, 0), "released": released.get(i, 0)})
+                    break
+            if released:
+                chk.count("td7_release_points_checked", len(released))
         # checkpoint copies: between two environment steps they change only when the assessment said so, to the policy as it was then
         steps = [sn for k, sn in seq if k == "step"]
         for i in range(len(steps) - 1):
             a, b = steps[i], steps[i + 1]
             changed = not (tr.same(a["actor_checkpoint"], b["actor_checkpoint"]) and tr.same(a["fixed_embedding_checkpoint"], b["fixed_embedding_checkpoint"]))
             if changed and not decisions.get(i, False):
-                chk.fail("C06:train_td7:checkpoint-cadence", "the checkpoint copy changed although no checkpoint update was decided", {"case": case, "iteration": i})
+                chk.fail(f"{prefix}:train_td7:checkpoint-cadence", "the checkpoint copy changed although no checkpoint update was decided", {"case": case, "iteration": i})
             if decisions.get(i, False):
                 chk.count("checkpoint_updates_checked")
                 if not (tr.same(a["actor"], b["actor_checkpoint"]) and tr.same(a["fixed_embedding"], b["fixed_embedding_checkpoint"])):
-                    chk.fail("C06:train_td7:checkpoint-law", "the checkpoint is not a copy of the acting policy (actor and fixed embedding) it was decided for",
+                    chk.fail(f"{prefix}:train_td7:checkpoint-law", "the checkpoint is not a copy of the acting policy (actor and fixed embedding) it was decided for",
                              {"case": case, "iteration": i})
 
 
